@@ -64,6 +64,12 @@ def _mentions(node, name):
     return any(isinstance(x, ast.Name) and x.id == name for x in ast.walk(node))
 
 
+def _strip_not(t):
+    while isinstance(t, ast.UnaryOp) and isinstance(t.op, ast.Not):
+        t = t.operand
+    return t
+
+
 def sentinel_idiom(call, f):
     """-> (idiom, ok, why).  idiom in CHECK / RETURN / TAG-SELECTED / UNCHECKED"""
     st = Model.enclosing_stmt(call)
@@ -116,7 +122,7 @@ def sentinel_idiom(call, f):
         if isinstance(s, ast.Expr) and isinstance(s.value, ast.Call) and ast.unparse(s.value.func).endswith('check_decode_error') \
                 and any(isinstance(a, ast.Name) and a.id == v for a in s.value.args):
             return 'CHECK', True, 'check_decode_error(%s) before any other use' % v
-        if isinstance(s, ast.If) and isinstance(s.test, ast.Compare) and 'TAG_MISMATCH' in ast.unparse(s.test) and _mentions(s.test, v):
+        if isinstance(s, ast.If) and isinstance(_strip_not(s.test), ast.Compare) and 'TAG_MISMATCH' in ast.unparse(s.test) and _mentions(s.test, v):
             return 'CHECK', True, 'compared with TAG_MISMATCH before any other use'
         return 'UNCHECKED', False, '%s is used (%s) before being compared with TAG_MISMATCH' % (v, norm_stmt(s))
     return 'UNCHECKED', False, '%s is never compared with TAG_MISMATCH' % v
